@@ -220,6 +220,24 @@ def free_monoid(rng, tier):
                     break
         if L in (1, 3, 7, 100): samples.append(dict(L=L, result_last=[0, L - 1]))
         if len(fails) > 5: break
+    # the schedule depends on L only - not on how much data rides along: large batches (well beyond 2^16 elements in total) of lengths that
+    # are / are not powers of two, batch axis before and after the scan axis
+    for (shape, dim) in (((300, 128), 1), ((130, 300), 0), ((24, 1000), 1), ((513, 257), 0)):
+        L = shape[dim]
+        base = torch.arange(L, dtype=torch.int64); view = [1, 1]; view[dim] = L
+        x = torch.stack([base.view(view).expand(shape), base.view(view).expand(shape)], -1).clone()
+        bad = [False]
+        def ops_b(a, b):
+            if not bool((a[..., 1] + 1 == b[..., 0]).all()): bad[0] = True
+            return torch.stack([a[..., 0], b[..., 1]], -1)
+        try:
+            y = cumops(x, dim, ops_b); evals += 1
+            ok = (not bad[0]) and bool((y[..., 0] == 0).all()) and bool((y[..., 1] == base.view(view).expand(shape)).all())
+            z = x.clone(); r_ = cumops_(z, dim, ops_b)
+            ok = ok and bool((z == y).all()) and r_ is z
+            if not ok: fails.append(dict(clause='fold', signature=f'large batch {list(shape)} dim {dim}', L=L, elements=int(x.numel())))
+        except Exception as e:
+            fails.append(dict(clause='raises', signature=f'large batch {list(shape)}', error=f'{type(e).__name__}: {e}'[:200]))
     return dict(evaluations=evals, distinct_nontrivial=min(N, evals), rule='one run per (L, shape, dim); non-trivial: L >= 2; distinct L counted',
                 bound=f'L in 1..{N} (every value), rank <= 2 placements of the scan dim', failures=fails, samples=samples, exhaustive=True)
 
